@@ -131,6 +131,22 @@ def cases(tier, seed):
         for u2, _ in UN:
             t = ('u', u, ('u', u2, ('c', 6)))
             out.append(('.dq ' + g.render(t, 0, 0), g.toks(t)))
+    # 2b. a failing operand fails the whole expression whatever the operator and the other operand
+    #     (in particular && and || evaluate BOTH operands: a deciding left operand does not hide a fault on the right)
+    g.syms = {'nosuch': None}
+    bad = [('b', 'div', ('c', 1), ('c', 0)), ('s', 'nosuch'), ('f', 'exp2', ('c', 64)), ('b', 'shl', ('c', 1), ('c', 64)), ('b', 'rem', ('c', 7), ('c', 0))]
+    for name, _, _ in BIN:
+        for f in bad:
+            for a in (0, 1, 5):
+                for t in (('b', name, ('c', a), f), ('b', name, f, ('c', a))):
+                    out.append(('.dq ' + g.render(t, 0, 0), g.toks(t)))
+    for u, _ in UN:
+        for f in bad:
+            t = ('u', u, f); out.append(('.dq ' + g.render(t, 0, 0), g.toks(t)))
+    for fn in FUNCS:
+        for f in bad:
+            t = ('f', fn, f); out.append(('.dq ' + g.render(t, 0, 0), g.toks(t)))
+    g.syms = {}
     # 3. random trees with symbols (.equ before/after, labels), spacing, radices
     n = 3000 if tier == 'quick' else 40000
     for _ in range(n):
